@@ -387,7 +387,7 @@ fn n_engine(ctx: &Ctx) {
                 }
             }
         });
-        ctx.run.space(json!({"engine": "N (hash-iteration-order seams, DFS over choices)", "universe": u.name, "sets": u.len(), "settings": cfgs.iter().map(|c| c.name()).collect::<Vec<_>>()}));
+        ctx.run.space(json!({"engine": "N (hash-iteration-order seam, DFS over choices; + 8 un-seamed builds)", "universe": u.name, "sets": u.len(), "settings": cfgs.iter().map(|c| c.name()).collect::<Vec<_>>()}));
     }
     let bb = by_bound.lock().unwrap();
     if bb[1] + bb[2] + bb[3] > 0 {
@@ -479,7 +479,7 @@ fn lazy_tables(ctx: &Ctx) {
 }
 
 fn threads_sampling(ctx: &Ctx) {
-    let u = Universe::new("U_ab3{a,b}", &["a", "b"], 3, 2, true);
+    let u = if ctx.run.is_thorough() { Universe::new("U_ab3{a,b}", &["a", "b"], 3, 2, true) } else { u_prefix_suffix() };
     let cfgs = [Cfg::new(0), Cfg::new(R), Cfg::new(D | I)];
     let expect: Vec<Vec<Result<String, String>>> = (0..u.len()).map(|i| cfgs.iter().map(|c| c.build(&u.set(i))).collect()).collect();
     let bad = AtomicU64::new(0);
@@ -503,16 +503,14 @@ fn threads_sampling(ctx: &Ctx) {
 }
 
 pub fn run(ctx: &Ctx) {
-    *ctx.run.rule.lock().unwrap() = "H: BFS over real RegExpBuilder objects from permuted/duplicated initial lists, one transition per setter/build/clone, states merged only when (owned test-case vector, config) are identical, invariant (build, build twice, clone-build == fresh canonical build under the reference-model settings) evaluated in every state; orders: every permutation and single duplication of every set; N: DFS over every choice at the two hash-order seams (class representative in recreate_graph, repetition-map iteration), all combinations when <= cap executions else all with <= 2 (then 1) non-default choices, plus 8 un-seamed builds per case; lazy tables: all 3! first-use orders in fresh processes; a case is non-trivial when it has more than one execution / a history state; distinct by hash".into();
-    ctx.run.assumptions.lock().unwrap().push("the hash seed influences build() only through the two seamed iteration orders (all other HashSet/HashMap uses are membership, insertion or set algebra; reviewed in dfa.rs and cluster.rs) -- additionally cross-checked by 8 un-seamed builds per case with fresh RandomState".into());
+    *ctx.run.rule.lock().unwrap() = "H: BFS over real RegExpBuilder objects from permuted/duplicated initial lists, one transition per setter/build/clone, states merged only when (owned test-case vector, config) are identical, invariant (build, build twice, clone-build == fresh canonical build under the reference-model settings) evaluated in every state; orders: every permutation and single duplication of every set; N: DFS over every choice at the hash-order seam (iteration order of the repetition map in cluster.rs; the representative-choice seam in recreate_graph was retired together with the nondeterminism it exposed, fix 5b265b8), all combinations when <= cap executions else all with <= 2 (then 1) non-default choices, plus 8 un-seamed builds per case (fresh RandomState per container: this part samples hash seeds and is what catches iteration over a container that has no seam); separate processes compared by digest; lazy tables: all 3! first-use orders in fresh processes; a case is non-trivial when it has more than one execution / a history state; distinct by hash".into();
+    ctx.run.assumptions.lock().unwrap().push("after fix 5b265b8 the hash seed can influence build() only through the iteration order of the repetition map (seamed, explored exhaustively); every other HashSet/HashMap use in dfa.rs and cluster.rs is membership, insertion, min() or set algebra (reviewed) -- cross-checked by 8 un-seamed builds per case with fresh RandomState and by separate processes".into());
     h_engine(ctx);
     orders(ctx);
     n_engine(ctx);
     lazy_tables(ctx);
     process_seeds(ctx);
-    if ctx.run.is_thorough() {
-        threads_sampling(ctx);
-    }
+    threads_sampling(ctx);
 }
 
 /// Single-case replay: orders/duplicates and hash-order sensitivity of the recorded list and settings.
